@@ -10,7 +10,7 @@
 From Coq Require Import List NArith PArith Bool Arith FMapPositive.
 From OxiVerif Require Import DD.Table DD.TableExtra DD.TableProofs DD.Build DD.BuildProofs
   DD.FamSpec DD.FamSpecProofs DD.ZbddOps DD.ZbddOpsProofs DD.ZbddSubsetProofs DD.ZbddSoundProofs
-  DD.ZbddExamples.
+  DD.ZbddVars DD.ZbddVarsProofs DD.ZbddExamples.
 Import ListNotations.
 
 (** the executable checker run on real snapshots decides the invariant assumed below *)
@@ -209,6 +209,41 @@ Theorem C09_grows_bool_view : forall s s' r c F,
     Some (fam_bool (nlevels s) F c && all_lo c (nlevels s) (nlevels s' - nlevels s)).
 Proof. exact grows_bool_view. Qed.
 Print Assumptions C09_grows_bool_view.
+
+(** add_vars of a ZBDD manager (levels appended below, identity on the new
+    variables, tautology chain rebuilt): well-formedness kept, every node and
+    every family kept, [taut(l)] = all subsets of the levels [l, nlevels) *)
+Theorem C09_add_vars_ok : forall s k, ZbddOK s ->
+  exists s' ch, zadd_vars s k = Some (s', ch) /\ ZbddOK s' /\ grows s s' /\
+    nlevels s' = nlevels s + k /\
+    s_v2l s' = s_v2l s ++ seq (nlevels s) k /\ s_l2v s' = s_l2v s ++ seq (nlevels s) k /\
+    (forall r, ref_ok s r -> fam_of s' r = fam_of s r) /\
+    length ch = nlevels s' + 1 /\
+    forall l t, nth_error ch l = Some t ->
+      ref_ok s' t /\ exists F, fam_of s' t = Some F /\ feq F (f_powerset l (nlevels s' - l)).
+Proof. exact zadd_vars_ok. Qed.
+Print Assumptions C09_add_vars_ok.
+
+(** the chain rebuilt by [ZBDDCache::post_reorder_mut] (init, add_vars, reorder) *)
+Theorem C09_taut_chain_ok : forall s, ZbddOK s ->
+  exists s' ch, ztaut_chain s = Some (s', ch) /\ ZbddOK s' /\ extends s s' /\
+    length ch = nlevels s + 1 /\
+    forall l t, nth_error ch l = Some t ->
+      ref_ok s' t /\ exists F, fam_of s' t = Some F /\ feq F (f_powerset l (nlevels s - l)).
+Proof. exact ztaut_chain_ok. Qed.
+Print Assumptions C09_taut_chain_ok.
+
+(** [f_powerset] lists all subsets; as a Boolean function taut(0) is constant true *)
+Theorem C09_powerset : forall cnt from S,
+  In S (f_powerset from cnt) <-> incr_from from S /\ Forall (fun x => x < from + cnt) S.
+Proof. exact in_f_powerset. Qed.
+Print Assumptions C09_powerset.
+
+Theorem C09_taut_true : forall s t F c, ZbddOK s -> ref_ok s t -> choice_ok s c ->
+  fam_of s t = Some F -> feq F (f_powerset 0 (nlevels s)) ->
+  semz s (S (nlevels s)) 0 t c = Some true.
+Proof. exact ztaut_true. Qed.
+Print Assumptions C09_taut_true.
 
 (** the hypotheses are satisfiable and the model runs (order var -> level = [1; 2; 0]) *)
 Theorem C09_example :
